@@ -23,14 +23,20 @@ LInit == tag = [x \in TS |-> NoTag] /\ wat = [y \in WS |-> WAbsent] /\ ni = 0
 LTagNew(x) == ~TagIs(x) /\ tag' = [tag EXCEPT ![x] = ni + 1] /\ ni' = ni + 1 /\ UNCHANGED wat
 LTagCopyC(x, s) == ~TagIs(x) /\ TagIs(s) /\ tag' = [tag EXCEPT ![x] = ni + 1] /\ ni' = ni + 1 /\ UNCHANGED wat   \* also move construction
 LTagAssign(x, s) == TagIs(x) /\ TagIs(s) /\ UNCHANGED tvars0                                                        \* copy and move assignment
-LTagDel(x) == TagIs(x) /\ tag' = [tag EXCEPT ![x] = NoTag] /\ UNCHANGED <<wat, ni>>
+\* a watcher of a destroyed incarnation can never report alive again: it is indistinguishable from an empty one and is kept as such
+LTagDel(x) == /\ TagIs(x) /\ tag' = [tag EXCEPT ![x] = NoTag] /\ UNCHANGED ni
+              /\ wat' = [y \in WS |-> IF wat[y] = tag[x] THEN WEmpty ELSE wat[y]]
 LWNull(y) == ~WatIs(y) /\ wat' = [wat EXCEPT ![y] = WEmpty] /\ UNCHANGED <<tag, ni>>
 LWFromTag(y, x) == ~WatIs(y) /\ TagIs(x) /\ wat' = [wat EXCEPT ![y] = tag[x]] /\ UNCHANGED <<tag, ni>>             \* Watcher(tag), tag.get()
 LWCopyC(y, s) == ~WatIs(y) /\ WatIs(s) /\ wat' = [wat EXCEPT ![y] = wat[s]] /\ UNCHANGED <<tag, ni>>
 LWMoveC(y, s) == ~WatIs(y) /\ WatIs(s) /\ y # s /\ wat' = [wat EXCEPT ![y] = wat[s], ![s] = WEmpty] /\ UNCHANGED <<tag, ni>>
 LWAssignTag(y, x) == WatIs(y) /\ TagIs(x) /\ wat' = [wat EXCEPT ![y] = tag[x]] /\ UNCHANGED <<tag, ni>>
 LWCopyA(y, s) == WatIs(y) /\ WatIs(s) /\ wat' = [wat EXCEPT ![y] = wat[s]] /\ UNCHANGED <<tag, ni>>
-LWMoveA(y, s) == WatIs(y) /\ WatIs(s) /\ wat' = (IF y = s THEN wat ELSE [wat EXCEPT ![y] = wat[s], ![s] = WEmpty]) /\ UNCHANGED <<tag, ni>>
+\* move assignment: the target takes over what the source watched; the source is left empty (the code: reset + swap) or with what
+\* the target watched before (plain swap idiom) - both are sound for the property and the repository's tests pin neither
+LWMoveAReset(y, s) == WatIs(y) /\ WatIs(s) /\ UNCHANGED <<tag, ni>> /\ wat' = (IF y = s THEN wat ELSE [wat EXCEPT ![y] = wat[s], ![s] = WEmpty])
+LWMoveASwap(y, s) == WatIs(y) /\ WatIs(s) /\ UNCHANGED <<tag, ni>> /\ wat' = [wat EXCEPT ![y] = wat[s], ![s] = wat[y]]
+LWMoveA(y, s) == LWMoveAReset(y, s) \/ LWMoveASwap(y, s)
 LWSwap(y, s) == WatIs(y) /\ WatIs(s) /\ wat' = [wat EXCEPT ![y] = wat[s], ![s] = wat[y]] /\ UNCHANGED <<tag, ni>>
 LWReset(y) == WatIs(y) /\ wat' = [wat EXCEPT ![y] = WEmpty] /\ UNCHANGED <<tag, ni>>
 LWDel(y) == WatIs(y) /\ wat' = [wat EXCEPT ![y] = WAbsent] /\ UNCHANGED <<tag, ni>>
